@@ -17,19 +17,22 @@ def monitorLine (l : Line) : Option String :=
   match str l "kind" with
   | "handler" =>
     _root_.C09.handlerOK { panic := bool l "panic", commits := nat l "commits", logicAfterErr := nat l "afterErr" }
-  | "dec" | "claims" | "verify" | "client" => _root_.C09.outcomeOK (clsOfObs (str l "obs"))
+  | "dec" | "claims" | "verify" | "client" | "hint" => _root_.C09.outcomeOK (clsOfObs (str l "obs"))
   | _ => some "bad-kind"
 
 def statusClass (n : Nat) : String := toString (n / 100) ++ "xx"
+def lastSeg (s : String) : String := if s == "" then "accepted" else ((s.splitOn ".").getLast?).getD s
 
 def classOf (l : Line) : String :=
   match str l "kind" with
   | "handler" =>
     let ent := if str l "entry" == "" then "unrouted" else str l "entry"
-    "handler:" ++ str l "router" ++ ":" ++ esc ent ++ ":" ++ esc (((str l "mut").splitOn ":").headD "") ++ ":" ++ statusClass (nat l "status")
+    let tok := if has l "tplace" then ":" ++ esc (str l "tplace") ++ ":" ++ esc (lastSeg (str l "tcheck")) else ""
+    "handler:" ++ str l "router" ++ ":" ++ esc ent ++ ":" ++ esc (((str l "mut").splitOn ":").headD "") ++ tok ++ ":" ++ statusClass (nat l "status")
   | "dec" => "dec:" ++ str l "type" ++ ":" ++ str l "mode" ++ ":" ++ str l "ptype" ++ ":" ++ str l "obs"
   | "claims" => "claims:" ++ esc (str l "type") ++ ":" ++ str l "ptype" ++ ":" ++ str l "obs"
   | "verify" => "verify:" ++ esc (str l "fn") ++ ":p" ++ toString (nat l "parts") ++ ":" ++ str l "ptype" ++ ":" ++ str l "obs"
+  | "hint" => "hint:" ++ esc (str l "caller") ++ ":" ++ esc (lastSeg (str l "tcheck")) ++ ":" ++ str l "obs"
   | "client" => "client:" ++ esc (str l "helper") ++ ":" ++ statusClass (nat l "status") ++ ":" ++ str l "ptype" ++ ":" ++ str l "obs"
   | k => "other:" ++ esc k
 
